@@ -4,6 +4,7 @@ import (
 	"bytes"
 	"fmt"
 	"go/ast"
+	"go/constant"
 	"go/printer"
 	"go/token"
 	"go/types"
@@ -32,6 +33,9 @@ type Program struct {
 	// NonNilGlobals: package-level variables initialised once (in init) with a
 	// value known to be non-nil (errors.New / fmt.Errorf / &T{} / make) and never stored to again.
 	NonNilGlobals map[*ssa.Global]bool
+	// ConstBytesGlobals: package-level []byte variables initialised once with []byte("literal") and
+	// never stored to again (assumption, listed: nobody writes through the slice either).
+	ConstBytesGlobals map[*ssa.Global]string
 }
 
 // pkgShort gives the short package name used in contract keys.
@@ -164,6 +168,7 @@ func loadProgram(dir string) (*Program, error) {
 	}
 	sort.Slice(P.RepoFns, func(i, j int) bool { return P.KeyOf[P.RepoFns[i]] < P.KeyOf[P.RepoFns[j]] })
 	P.NonNilGlobals = map[*ssa.Global]bool{}
+	P.ConstBytesGlobals = map[*ssa.Global]string{}
 	stores := map[*ssa.Global]int{}
 	for fn := range ssautil.AllFunctions(prog) {
 		for _, b := range fn.Blocks {
@@ -182,6 +187,14 @@ func loadProgram(dir string) (*Program, error) {
 					continue
 				}
 				switch v := st.Val.(type) {
+				case *ssa.Convert:
+					if c, ok := v.X.(*ssa.Const); ok && c.Value != nil && c.Value.Kind() == constant.String {
+						if sl, ok := v.Type().Underlying().(*types.Slice); ok {
+							if b, ok := sl.Elem().Underlying().(*types.Basic); ok && b.Kind() == types.Uint8 {
+								P.ConstBytesGlobals[gl] = constant.StringVal(c.Value)
+							}
+						}
+					}
 				case *ssa.Call:
 					if cal := v.Call.StaticCallee(); cal != nil {
 						switch cal.String() {
@@ -207,6 +220,11 @@ func loadProgram(dir string) (*Program, error) {
 	for gl := range P.NonNilGlobals {
 		if stores[gl] != 1 {
 			delete(P.NonNilGlobals, gl)
+		}
+	}
+	for gl := range P.ConstBytesGlobals {
+		if stores[gl] != 1 {
+			delete(P.ConstBytesGlobals, gl)
 		}
 	}
 	return P, nil
